@@ -2,6 +2,7 @@ package util
 
 import (
 	"context"
+	"errors"
 	"fmt"
 	"github.com/markusressel/fan2go/internal/ui"
 	"os/exec"
@@ -18,6 +19,8 @@ func SafeCmdExecution(executable string, args []string, timeout time.Duration) (
 	defer cancel()
 
 	cmd := exec.CommandContext(ctx, executable, args...)
+	// don't wait forever for child processes of the command that keep its output open
+	cmd.WaitDelay = 100 * time.Millisecond
 	out, err := cmd.Output()
 
 	if ctx.Err() == context.DeadlineExceeded {
@@ -26,8 +29,13 @@ func SafeCmdExecution(executable string, args []string, timeout time.Duration) (
 	}
 
 	if err != nil {
-		exitError := err.(*exec.ExitError)
-		ui.Warning("Command failed to execute: %s: %s", executable, string(exitError.Stderr))
+		// note: err is not an ExitError if the command could not be started at all
+		stderr := ""
+		var exitError *exec.ExitError
+		if errors.As(err, &exitError) {
+			stderr = string(exitError.Stderr)
+		}
+		ui.Warning("Command failed to execute: %s: %v %s", executable, err, stderr)
 		return "", err
 	}
 
